@@ -2974,7 +2974,13 @@ def broker_replies(raw):
     if t == 5 and pk.get('reason', 0) < 0x80:
         return m.ack('pubrel', pk['pid'])          # the broker's own QoS 2 message: PUBREC received, PUBREL sent
     if t == 8:
-        return m.suback(pk['pid'], [0] * max(1, len(pk.get('filters', [1]))))
+        sids = [v for i, v in pk.get('props', []) if i == 11]
+        sub = m.suback(pk['pid'], [0] * max(1, len(pk.get('filters', [1]))))
+        if sids and pk['pid'] % 2:
+            # a retained message matching the new subscription follows the SUBACK at once (before the application can have
+            # taken the stream): it belongs to that subscription
+            return sub + m.publish(b'a', b'retained', 0, None, 0, 1, [(11, sids[0])])
+        return sub
     if t == 10:
         return m.unsuback(pk['pid'], [0] * max(1, len(pk.get('filters', [1]))))
     if t == 12:
@@ -3061,6 +3067,15 @@ def reactive_scenarios(rng, tier, prefix):
         for o in sorted(held):
             items.append(f'RELEASE op{o}')
         items += [REACT, REACT, REACT]
+        # the subscriptions that were not abandoned are consumed: the nth subscribe() call has subscription identifier n
+        nsub = 0
+        for l in list(items):
+            if isinstance(l, str) and l.startswith('OP ') and ' SUBSCRIBE ' in l:
+                nsub += 1
+                o = int(l.split(' ')[1])
+                if o in live:
+                    inpid += 1
+                    items += [f'STREAM {o}', m.feed(m.publish(b'a', b'for-' + str(nsub).encode(), 1, inpid, 0, 0, [(11, nsub)])), REACT]
         out.append((f'{prefix}-react-{i}', items))
     # the plain late-poll cases, every kind
     for kind in ('pub1', 'pub2', 'sub', 'unsub', 'ping'):
